@@ -1,7 +1,7 @@
 (* Lemmas about Model/Wrappers.v: nested induction over wrapper trees, extensionality of the
    result monad, the binding facts of each core.py signature, the composition theorem. *)
 From Coq Require Import ZArith List Bool Lia.
-From VL Require Import Model.Wrappers.
+From VL Require Import Model.Wrappers Proofs.WrapParts_proofs.
 Import ListNotations.
 Open Scope Z_scope.
 
@@ -24,6 +24,14 @@ Section EvInd.
   Hypothesis HTieBr : forall m b, P m -> P b -> P (TieBr m b).
   Hypothesis HPListC : forall p, P p -> P (PListC p).
   Hypothesis HPListO : forall p le c, P p -> P le -> P (PListO p le c).
+  Hypothesis HVSys : forall e, P e -> P (VSys e).
+  Hypothesis HUnused : forall rs qs d, Forall P rs -> P (Unused rs qs d).
+  Hypothesis HAdjLeaf : forall c e, P e -> P (AdjLeaf c e).
+  Hypothesis HAdjAllow : forall pe e, P pe -> P e -> P (AdjAllow pe e).
+  Hypothesis HAdjLevel : forall pe e f, P pe -> P e -> P (AdjLevel pe e f).
+  Hypothesis HByConsP : forall e a pre, P e -> P pre -> P (ByConsP e a pre).
+  Hypothesis HAdjLevelC : forall ce oe e f, P ce -> P oe -> P e -> P (AdjLevelC ce oe e f).
+  Hypothesis HAdjLevelC0 : forall ce e f, P ce -> P e -> P (AdjLevelC0 ce e f).
 
   Fixpoint ev_ind' (t : ev) : P t :=
     match t with
@@ -48,6 +56,19 @@ Section EvInd.
     | TieBr m b => HTieBr m b (ev_ind' m) (ev_ind' b)
     | PListC p => HPListC p (ev_ind' p)
     | PListO p le c => HPListO p le c (ev_ind' p) (ev_ind' le)
+    | VSys e => HVSys e (ev_ind' e)
+    | Unused rs qs d =>
+        HUnused rs qs d ((fix go (l : list ev) : Forall P l :=
+                            match l with
+                            | [] => Forall_nil P
+                            | s :: r => Forall_cons s (ev_ind' s) (go r)
+                            end) rs)
+    | AdjLeaf c e => HAdjLeaf c e (ev_ind' e)
+    | AdjAllow pe e => HAdjAllow pe e (ev_ind' pe) (ev_ind' e)
+    | AdjLevel pe e f => HAdjLevel pe e f (ev_ind' pe) (ev_ind' e)
+    | ByConsP e a pre => HByConsP e a pre (ev_ind' e) (ev_ind' pre)
+    | AdjLevelC ce oe e f => HAdjLevelC ce oe e f (ev_ind' ce) (ev_ind' oe) (ev_ind' e)
+    | AdjLevelC0 ce e f => HAdjLevelC0 ce e f (ev_ind' ce) (ev_ind' e)
     end.
 End EvInd.
 
@@ -70,24 +91,52 @@ Proof.
   rewrite H. apply IH. exact H.
 Qed.
 
-Lemma break_ties_ext : forall f g votes main,
-  (forall sub n, f sub n = g sub n) -> break_ties f votes main = break_ties g votes main.
+Lemma break_ties_g_ext : forall s1 s2 f g votes main,
+  (forall v x, s1 v x = s2 v x) -> (forall sub n, f sub n = g sub n) ->
+  break_ties_g s1 f votes main = break_ties_g s2 g votes main.
 Proof.
-  intros f g votes main H. unfold break_ties.
-  destruct main as [| | |l|d]; try reflexivity.
+  intros s1 s2 f g votes main Hs H. unfold break_ties_g.
+  destruct main as [| | |l|d|]; try reflexivity.
   - destruct (existsb _ l); [|reflexivity].
     apply rbind_ext. intro ties. f_equal. apply fold_left_ext. intros a b.
-    apply rbind_ext. intro cur. apply rbind_ext. intro sub. rewrite H. reflexivity.
+    apply rbind_ext. intro cur. rewrite Hs. apply rbind_ext. intro sub. rewrite H. reflexivity.
   - destruct (existsb _ d); [|reflexivity].
     apply rbind_ext. intro ties. f_equal. apply fold_left_ext. intros a b.
-    apply rbind_ext. intro cur. apply rbind_ext. intro sub. rewrite H. reflexivity.
+    apply rbind_ext. intro cur. rewrite Hs. apply rbind_ext. intro sub. rewrite H. reflexivity.
+Qed.
+
+Lemma break_ties_ext : forall f g votes main,
+  (forall sub n, f sub n = g sub n) -> break_ties f votes main = break_ties g votes main.
+Proof. intros f g votes main H. unfold break_ties. apply break_ties_g_ext; [reflexivity|exact H]. Qed.
+
+(* ------------------------------------------------------------------ the declarative parts of the spec side = the code-shaped parts *)
+Lemma break_ties_s : forall f g votes main,
+  (forall sub n, f sub n = g sub n) -> break_ties f votes main = break_ties_g subset_s g votes main.
+Proof.
+  intros f g votes main H. unfold break_ties. apply break_ties_g_ext; [|exact H].
+  intros v x. symmetry. apply subset_s_eq.
+Qed.
+
+Lemma sum_party_s : forall d v, sum_party_g totals_s d v = sum_party d v.
+Proof.
+  unfold sum_party. induction d as [|d IH]; intro v; cbn [sum_party_g]; [reflexivity|].
+  apply rbind_ext. intro dd.
+  rewrite (map_res_ext _ (fun kv => sum_party_g vote_totals d (snd kv) >>= fun x => Ok (fst kv, x)))
+    by (intro kv; rewrite IH; reflexivity).
+  apply rbind_ext. intro dd'. apply totals_s_eq.
+Qed.
+
+Lemma party_votes_s : forall d p, party_votes_g subset_s d p = party_votes d p.
+Proof.
+  intros d p. unfold party_votes, party_votes_g. f_equal. apply map_res_ext. intro kv.
+  rewrite subset_s_eq. reflexivity.
 Qed.
 
 (* ------------------------------------------------------------------ Conditioned: restriction at depth *)
 Lemma elim_party_map_depth : forall d v ne,
-  elim_party d v ne = map_depth d (fun x => subset_votes x ne) v.
+  elim_party d v ne = map_depth d (fun x => subset_s x ne) v.
 Proof.
-  induction d as [|d IH]; intros v ne; simpl; [reflexivity|].
+  induction d as [|d IH]; intros v ne; simpl; [symmetry; apply subset_s_eq|].
   apply rbind_ext. intro dd. f_equal. apply map_res_ext. intro kv. rewrite IH. reflexivity.
 Qed.
 
@@ -110,6 +159,18 @@ Lemma bind_style_cond : forall st sa, bind sig_cond (mk_call st sa) = accept sig
 Proof. kw_cases. Qed.
 Lemma bind_style_plist : forall st sa, bind sig_plist (mk_call st sa) = accept sig_plist sa.
 Proof. kw_cases. Qed.
+
+Lemma bind_style_adj : forall st sa, bind sig_adj (mk_call st sa) = accept sig_adj sa.
+Proof. kw_cases. Qed.
+
+Lemma accept_adj : forall s p m pl lv cl,
+  accept sig_adj (KW s p m pl lv cl) =
+  match s, p, pl, lv, cl with
+  | Some n, Some g, None, None, None =>
+      Ok (BD (KW (Some n) (Some g) (Some (odef m (VDict []))) None None None) [] kw_none)
+  | _, _, _, _, _ => raise E_TYPE
+  end.
+Proof. intros s p m pl lv cl. destruct s, p, m, pl, lv, cl; reflexivity. Qed.
 
 Lemma accept_constit : forall s p m pl lv cl,
   accept sig_constit (KW s p m pl lv cl) =
@@ -175,6 +236,58 @@ Proof.
   rewrite !andb_true_iff, !opt_takes. tauto.
 Qed.
 
+(* ------------------------------------------------------------------ seat counts *)
+Lemma seat_any_ok : forall t, seat_any t = true -> forall v, seat_ok t v = true.
+Proof.
+  induction t using ev_ind'; cbn [seat_any seat_ok]; intros Ha v; auto.
+  - destruct (takes t2 KSeats && negb (is_none v)); auto.
+  - rewrite Ha. destruct v; reflexivity.
+  - rewrite Ha. destruct v; reflexivity.
+  - rewrite Ha. apply orb_true_r.
+  - rewrite forallb_forall in *. rewrite Forall_forall in H. intros x Hx. apply H; auto.
+  - destruct (takes t2 KSeats && negb (is_none v)); auto.
+Qed.
+
+Lemma seated_seat_any : forall t, seated t = true -> seat_any t = true.
+Proof.
+  induction t using ev_ind'; cbn [seated seat_any]; intros Hs; auto;
+    repeat rewrite andb_true_iff in Hs; try tauto.
+  rewrite forallb_forall in *. rewrite Forall_forall in H. intros x Hx. apply H; auto.
+Qed.
+
+(* ------------------------------------------------------------------ the seat count adjusters depend on their evaluator only through its answers *)
+Lemma calc_allow_ext : forall E F n prev mx, (forall a b, E a b = F a b) -> calc_allow E n prev mx = calc_allow F n prev mx.
+Proof. intros E F n prev mx H. unfold calc_allow. rewrite H. reflexivity. Qed.
+
+Lemma level_loop_ext : forall fuel E F mx pmins adj prop, (forall a b, E a b = F a b) ->
+  level_loop fuel E mx pmins adj prop = level_loop fuel F mx pmins adj prop.
+Proof.
+  induction fuel as [|f IH]; intros E F mx pmins adj prop H; cbn [level_loop]; [reflexivity|].
+  apply rbind_ext. intros [|]; [|reflexivity].
+  apply rbind_ext. intro adj'. rewrite H. apply rbind_ext. intro prop'. apply IH. exact H.
+Qed.
+
+Lemma calc_level_ext : forall fuel E F n prev mx, (forall a b, E a b = F a b) ->
+  calc_level fuel E n prev mx = calc_level fuel F n prev mx.
+Proof.
+  intros fuel E F n prev mx H. unfold calc_level. rewrite H.
+  apply rbind_ext; intro prop. apply rbind_ext; intro propd. apply rbind_ext; intro lowest.
+  apply rbind_ext; intro pd. apply rbind_ext; intro drop. apply rbind_ext; intro adj0.
+  rewrite (level_loop_ext fuel E F mx lowest adj0 prop H). reflexivity.
+Qed.
+
+Lemma calc_level_byc_ext : forall fuel CE CE' PV PV' OE OE' n prev mx,
+  (forall a b, CE a b = CE' a b) -> PV = PV' -> (forall pv a b, OE pv a b = OE' pv a b) ->
+  calc_level_byc fuel CE PV OE n prev mx = calc_level_byc fuel CE' PV' OE' n prev mx.
+Proof.
+  intros fuel CE CE' PV PV' OE OE' n prev mx H1 H2 H3. subst PV'. unfold calc_level_byc. rewrite H1.
+  apply rbind_ext; intro cr. apply rbind_ext; intro crd. apply rbind_ext; intro minima.
+  apply rbind_ext; intro lowest0. apply rbind_ext; intro pd. apply rbind_ext; intro lowest.
+  apply rbind_ext; intro drop. apply rbind_ext; intro adj0. apply rbind_ext; intro pv.
+  rewrite H3. apply rbind_ext; intro prop.
+  rewrite (level_loop_ext fuel (OE pv) (OE' pv) mx lowest adj0 prop (H3 pv)). reflexivity.
+Qed.
+
 (* ------------------------------------------------------------------ the composition theorem *)
 Ltac kw_simpl' :=
   cbn [nget sa_get kget kset b_named b_args b_kwargs k_seats k_prev k_max k_pl k_lv k_cl kw_none odef
@@ -190,61 +303,66 @@ Section Compose.
   Notation RS := (run_spec leaf conv).
 
   Definition agree (t : ev) : Prop :=
-    forall st sa votes, fits t sa = true -> RI t votes (mk_call st sa) = RS t votes sa.
+    forall st sa votes, fits t sa = true -> seat_fits t sa = true -> RI t votes (mk_call st sa) = RS t votes sa.
 
   Lemma agree_npm : forall e v n p m, agree e -> takes e KSeats = true -> takes e KPrev = true -> takes e KMax = true ->
-    RI e v (call_npm n p m) = RS e v (sa_npm n p m).
+    seat_ok e n = true -> RI e v (call_npm n p m) = RS e v (sa_npm n p m).
   Proof.
-    intros e v n p m H Hs Hp Hm. apply (H PosSeats (sa_npm n p m) v).
+    intros e v n p m H Hs Hp Hm Hn. apply (H PosSeats (sa_npm n p m) v); [|exact Hn].
     apply fits_split. repeat split; auto.
   Qed.
-  Lemma agree_n : forall e v n, agree e -> takes e KSeats = true -> RI e v (call_n n) = RS e v (only KSeats n).
+  Lemma agree_n : forall e v n, agree e -> takes e KSeats = true -> seat_ok e n = true ->
+    RI e v (call_n n) = RS e v (only KSeats n).
   Proof.
-    intros e v n H Hs. apply (H PosSeats (only KSeats n) v).
+    intros e v n H Hs Hn. apply (H PosSeats (only KSeats n) v); [|exact Hn].
     apply fits_split. repeat split; auto.
   Qed.
-  Lemma agree_0 : forall e v, agree e -> RI e v call0 = RS e v kw_none.
-  Proof. intros e v H. apply (H AllKw kw_none v). apply fits_split. repeat split; auto. Qed.
-  Lemma agree_kw : forall e v sa, agree e -> fits e sa = true -> RI e v (PA [] sa) = RS e v sa.
-  Proof. intros e v sa H Hf. rewrite <- mk_call_allkw. apply H. exact Hf. Qed.
+  Lemma agree_0 : forall e v, agree e -> seat_ok e VNone = true -> RI e v call0 = RS e v kw_none.
+  Proof. intros e v H Hn. apply (H AllKw kw_none v); [|exact Hn]. apply fits_split. repeat split; auto. Qed.
+  Lemma agree_kw : forall e v sa, agree e -> fits e sa = true -> seat_fits e sa = true -> RI e v (PA [] sa) = RS e v sa.
+  Proof. intros e v sa H Hf Hn. rewrite <- mk_call_allkw. apply H; assumption. Qed.
   Lemma agree_kw_npm : forall e v n p m, agree e -> takes e KSeats = true -> takes e KPrev = true -> takes e KMax = true ->
+    seat_ok e n = true ->
     RI e v (PA [] (KW (Some n) (Some p) (Some m) None None None)) = RS e v (sa_npm n p m).
   Proof.
-    intros e v n p m H Hs Hp Hm. apply agree_kw; [exact H|].
+    intros e v n p m H Hs Hp Hm Hn. apply agree_kw; [exact H| |exact Hn].
     apply fits_split. repeat split; auto.
   Qed.
 
   Lemma case_leaf : forall l k, agree (Leaf l k).
   Proof.
-    intros l k st sa votes Hf. cbn [run_impl run_spec].
+    intros l k st sa votes Hf _. cbn [run_impl run_spec].
     rewrite (bind_leaf_style k st sa l Hf). reflexivity.
   Qed.
 
   Lemma case_pre : forall c e, agree e -> agree (PreConv c e).
   Proof.
-    intros c e IH st sa votes Hf. cbn [run_impl run_spec].
-    apply rbind_ext. intro v. apply IH. exact Hf.
+    intros c e IH st sa votes Hf Hn. cbn [run_impl run_spec].
+    apply rbind_ext. intro v. apply IH; [exact Hf|exact Hn].
   Qed.
 
   Lemma case_post : forall e c, agree e -> agree (PostConv e c).
   Proof.
-    intros e c IH st sa votes Hf. cbn [run_impl run_spec].
-    rewrite (IH st sa votes Hf). reflexivity.
+    intros e c IH st sa votes Hf Hn. cbn [run_impl run_spec].
+    rewrite (IH st sa votes Hf Hn). reflexivity.
   Qed.
 
-  Lemma case_fixed : forall e n, agree e -> takes e KSeats = true -> agree (Fixed e n).
+  Lemma case_vsys : forall e, agree e -> agree (VSys e).
+  Proof. intros e IH st sa votes Hf Hn. cbn [run_impl run_spec]. apply IH; [exact Hf|exact Hn]. Qed.
+
+  Lemma case_fixed : forall e n, agree e -> takes e KSeats = true -> seat_ok e n = true -> agree (Fixed e n).
   Proof.
-    intros e n IH Hs st [s p m pl lv cl] votes Hf.
+    intros e n IH Hs Hn st [s p m pl lv cl] votes Hf _.
     apply fits_split in Hf. destruct Hf as [Hf1 [Hf2 [Hf3 [Hf4 [Hf5 Hf6]]]]].
     cbn [takes] in *.
     destruct Hf1 as [Hf1|Hf1]; [subst s|cbn [kw_eqb negb andb] in Hf1; discriminate Hf1].
     rewrite mk_call_noseats by reflexivity.
     cbn [run_impl run_spec k_seats]. rewrite bind_fixed_noseats. kw_simpl.
-    apply (IH PosSeats (KW (Some n) p m pl lv cl) votes).
+    apply (IH PosSeats (KW (Some n) p m pl lv cl) votes); [|exact Hn].
     apply fits_split. cbn [kw_eqb negb andb] in *. repeat split; auto.
   Qed.
 
-  Ltac district_loop IH Hs Hpm Hip :=
+  Ltac district_loop IH Hs Hpm Hip Hany :=
     apply rbind_ext; intro apportionment; apply rbind_ext; intro dvs; f_equal;
     apply map_res_ext; intro kv;
     apply rbind_ext; intro ad; apply rbind_ext; intro pd; apply rbind_ext; intro md;
@@ -254,160 +372,297 @@ Section Compose.
     [apply agree_npm; auto | apply agree_n; auto].
 
   Lemma case_bycons : forall e a, agree e -> takes e KSeats = true -> (takes e KPrev = true -> takes e KMax = true) ->
-    acc_prev e = takes e KPrev -> agree (ByCons e a).
+    acc_prev e = takes e KPrev -> (forall v, seat_ok e v = true) -> agree (ByCons e a).
   Proof.
-    intros e a IH Hs Hpm Hip st [s p m pl lv cl] votes Hf.
+    intros e a IH Hs Hpm Hip Hany st [s p m pl lv cl] votes Hf _.
     cbn [run_impl run_spec]. rewrite bind_style_constit, accept_constit.
     destruct pl, lv, cl; try reflexivity. cbn [rbind]. kw_simpl'.
-    destruct a as [|n|d]; [destruct s as [[| | | |]|]|..]; kw_simpl'; district_loop IH Hs Hpm Hip.
+    destruct a as [|n|d]; [destruct s as [[| | | | |]|]|..]; kw_simpl'; district_loop IH Hs Hpm Hip Hany.
+  Qed.
+
+  (* ByConstituency with a preselector: the national totals through the preselector, every constituency on its votes
+     restricted to the preselected candidates *)
+  Ltac district_loop_p IH Hs Hpm Hip Hany :=
+    apply rbind_ext; intro dvs; f_equal;
+    apply map_res_ext; intro kv;
+    apply rbind_ext; intro ad; apply rbind_ext; intro pd; apply rbind_ext; intro md;
+    match goal with |- context [is_zero ?x] => destruct (is_zero x) end; [reflexivity|];
+    rewrite subset_s_eq; apply rbind_ext; intro sv;
+    f_equal; rewrite Hip;
+    match goal with |- context [takes ?e KPrev] => destruct (takes e KPrev) eqn:Hp end;
+    [apply agree_npm; auto | apply agree_n; auto].
+
+  Lemma case_byconsp : forall e a pre, agree e -> agree pre -> takes e KSeats = true ->
+    (takes e KPrev = true -> takes e KMax = true) -> acc_prev e = takes e KPrev -> acc_seats pre = takes pre KSeats ->
+    (forall v, seat_ok e v = true) -> agree (ByConsP e a pre).
+  Proof.
+    intros e a pre IH IHp Hs Hpm Hip Hips Hany st [s p m pl lv cl] votes Hf Hsf.
+    cbn [run_impl run_spec]. rewrite bind_style_constit, accept_constit.
+    destruct pl, lv, cl; try reflexivity. cbn [rbind]. kw_simpl'.
+    unfold seat_fits, seat_of in Hsf; cbn [seat_ok k_seats] in Hsf.
+    change (match s with Some v => v | None => VNone end) with (odef s VNone) in Hsf.
+    assert (Hpre : forall nat_votes,
+              (if acc_seats pre && negb (is_none (odef s VNone)) then RI pre nat_votes (call_n (odef s VNone))
+               else RI pre nat_votes call0)
+              = RS pre nat_votes (kset kw_none KSeats (if takes pre KSeats then given (odef s VNone) else None))).
+    { intro nv. rewrite Hips. unfold given.
+      destruct (takes pre KSeats) eqn:Hts, (is_none (odef s VNone)) eqn:Hn; cbn [andb negb] in *; kw_simpl';
+        first [apply agree_n; auto | apply agree_0; auto]. }
+    destruct a as [|n|d]; [destruct s as [[| | | | |]|]|..]; kw_simpl';
+      apply rbind_ext; intro apportionment; rewrite totals_s_eq; apply rbind_ext; intro nat_votes;
+      cbn [odef] in Hpre; rewrite Hpre; apply rbind_ext; intro preselected;
+      district_loop_p IH Hs Hpm Hip Hany.
   Qed.
 
   Ltac first_part tac :=
     match goal with |- ?a >>= ?f = ?b >>= ?g => let Hab := fresh "Hab" in
       assert (Hab : a = b); [tac | try rewrite Hab; clear Hab] end.
 
+  (* the apportioner may be seatless: a seat NUMBER reaches it only when it takes one ([seat_fits]) *)
   Lemma case_byconsd : forall e ae, agree e -> agree ae -> takes e KSeats = true ->
-    (takes e KPrev = true -> takes e KMax = true) -> acc_prev e = takes e KPrev -> takes ae KSeats = true ->
-    agree (ByConsD e ae).
+    (takes e KPrev = true -> takes e KMax = true) -> acc_prev e = takes e KPrev ->
+    (forall v, seat_ok e v = true) -> (forall v, seat_ok ae v = true) -> agree (ByConsD e ae).
   Proof.
-    intros e ae IH IHa Hs Hpm Hip Has st [s p m pl lv cl] votes Hf.
+    intros e ae IH IHa Hs Hpm Hip Hany Hanya st [s p m pl lv cl] votes Hf Hsf.
     cbn [run_impl run_spec]. rewrite bind_style_constit, accept_constit.
     destruct pl, lv, cl; try reflexivity. cbn [rbind]. kw_simpl'.
-    destruct s as [[| | | |]|]; kw_simpl';
+    destruct s as [[| | | | |]|]; unfold seat_fits, seat_of in Hsf; cbn [seat_ok k_seats] in Hsf; kw_simpl';
       first_part ltac:(try reflexivity; apply rbind_ext; intro cv; first [apply agree_n; auto | apply agree_0; auto | reflexivity]);
-      district_loop IH Hs Hpm Hip.
+      district_loop IH Hs Hpm Hip Hany.
   Qed.
 
-  Lemma case_preapp : forall e a, agree e -> takes_spm e = true -> agree (PreApp e a).
+  Lemma case_preapp : forall e a, agree e -> takes_spm e = true -> (forall v, seat_ok e v = true) -> agree (PreApp e a).
   Proof.
-    intros e a IH Hspm st [s p m pl lv cl] votes Hf.
+    intros e a IH Hspm Hany st [s p m pl lv cl] votes Hf _.
     unfold takes_spm in Hspm. rewrite !andb_true_iff in Hspm. destruct Hspm as [[Hs Hp] Hm].
     cbn [run_impl run_spec]. rewrite bind_style_constit, accept_constit.
     destruct pl, lv, cl; try reflexivity. cbn [rbind]. kw_simpl'.
-    destruct a as [|n|d]; [destruct s as [[| | | |]|]|..]; kw_simpl';
+    destruct a as [|n|d]; [destruct s as [[| | | | |]|]|..]; kw_simpl';
       apply rbind_ext; intro app; apply agree_kw_npm; auto.
   Qed.
 
-  Lemma case_preappd : forall e ae, agree e -> agree ae -> takes_spm e = true -> takes ae KSeats = true ->
-    agree (PreAppD e ae).
+  Lemma case_preappd : forall e ae, agree e -> agree ae -> takes_spm e = true ->
+    (forall v, seat_ok e v = true) -> (forall v, seat_ok ae v = true) -> agree (PreAppD e ae).
   Proof.
-    intros e ae IH IHa Hspm Has st [s p m pl lv cl] votes Hf.
+    intros e ae IH IHa Hspm Hany Hanya st [s p m pl lv cl] votes Hf Hsf.
     unfold takes_spm in Hspm. rewrite !andb_true_iff in Hspm. destruct Hspm as [[Hs Hp] Hm].
     cbn [run_impl run_spec]. rewrite bind_style_constit, accept_constit.
     destruct pl, lv, cl; try reflexivity. cbn [rbind]. kw_simpl'.
-    destruct s as [[| | | |]|]; kw_simpl';
+    destruct s as [[| | | | |]|]; unfold seat_fits, seat_of in Hsf; cbn [seat_ok k_seats] in Hsf; kw_simpl';
       first_part ltac:(try reflexivity; apply rbind_ext; intro cv; first [apply agree_n; auto | apply agree_0; auto | reflexivity]);
       apply rbind_ext; intro app; apply agree_kw_npm; auto.
   Qed.
 
-  Lemma case_remapp : forall e, agree e -> takes_spm e = true -> agree (RemApp e).
+  Lemma case_remapp : forall e, agree e -> takes_spm e = true -> (forall v, seat_ok e v = true) -> agree (RemApp e).
   Proof.
-    intros e IH Hspm st [s p m pl lv cl] votes Hf.
+    intros e IH Hspm Hany st [s p m pl lv cl] votes Hf _.
     unfold takes_spm in Hspm. rewrite !andb_true_iff in Hspm. destruct Hspm as [[Hs Hp] Hm].
     cbn [run_impl run_spec]. rewrite bind_style_constit, accept_constit.
     destruct pl, lv, cl; try reflexivity. cbn [rbind]. kw_simpl'.
     apply rbind_ext; intro total. apply agree_kw_npm; auto.
   Qed.
 
-  Lemma case_tiebr : forall m b, agree m -> agree b -> takes b KSeats = true -> agree (TieBr m b).
+  Lemma case_tiebr : forall m b, agree m -> agree b -> takes b KSeats = true -> (forall v, seat_ok b v = true) ->
+    agree (TieBr m b).
   Proof.
-    intros m b IHm IHb Hb st sa votes Hf. cbn [run_impl run_spec].
-    rewrite (IHm st sa votes Hf). apply rbind_ext. intro main.
-    apply break_ties_ext. intros sub n. apply agree_n; auto.
+    intros m b IHm IHb Hb Hany st sa votes Hf Hsf. cbn [run_impl run_spec].
+    rewrite (IHm st sa votes Hf Hsf). apply rbind_ext. intro main.
+    apply break_ties_s. intros sub n. apply agree_n; auto.
   Qed.
 
   Lemma case_multi : forall rs d, Forall (fun s => agree s /\ takes_spm s = true) rs -> agree (Multi rs d).
   Proof.
-    intros rs d HF st [s p m pl lv cl] votes Hf.
+    intros rs d HF st [s p m pl lv cl] votes Hf Hsf.
     cbn [run_impl run_spec]. rewrite bind_style_distr, accept_distr.
     destruct s as [n|], pl, lv, cl; try reflexivity. cbn [rbind]. kw_simpl'.
     apply rbind_ext; intro el0. apply rbind_ext; intro svs. f_equal.
+    unfold seat_fits, seat_of in Hsf; cbn [seat_ok k_seats] in Hsf.
     clear Hf. revert svs el0. induction HF as [|x rs' [Hx Hspm] HF IH]; intros svs el0; [reflexivity|].
     destruct svs as [|sv svs']; [reflexivity|].
+    cbn [forallb] in Hsf. apply andb_true_iff in Hsf. destruct Hsf as [Hx1 Hsf].
     unfold takes_spm in Hspm. rewrite !andb_true_iff in Hspm. destruct Hspm as [[Hs Hp] Hm].
-    cbn [length]. rewrite (agree_npm x sv n (VDict el0) (odef m (VDict [])) Hx Hs Hp Hm).
-    apply rbind_ext; intro stage_res. apply rbind_ext; intro el1. apply IH.
+    cbn [length]. rewrite (agree_npm x sv n (VDict el0) (odef m (VDict [])) Hx Hs Hp Hm Hx1).
+    apply rbind_ext; intro stage_res. apply rbind_ext; intro el1. apply IH. exact Hsf.
+  Qed.
+
+  (* UnusedVotesDistributor: every stage is handed the seats still to be given, nothing else *)
+  Lemma case_unused : forall rs qs d,
+    Forall (fun s => agree s /\ takes s KSeats = true /\ forall v, seat_ok s v = true) rs -> agree (Unused rs qs d).
+  Proof.
+    intros rs qs d HF st [s p m pl lv cl] votes Hf _.
+    cbn [run_impl run_spec]. rewrite bind_style_distr, accept_distr.
+    destruct s as [n|], pl, lv, cl; try reflexivity. cbn [rbind]. kw_simpl'.
+    apply rbind_ext; intro el0.
+    destruct (truthy (odef m (VDict []))); [reflexivity|]. f_equal.
+    clear Hf. generalize (map Some qs ++ [None]). intro oqs. revert oqs votes n el0.
+    induction HF as [|x rs' [Hx [Hs Hany]] HF IH]; intros oqs votes n el0; [reflexivity|].
+    destruct oqs as [|q oqs']; [reflexivity|].
+    rewrite (agree_n x votes n Hx Hs (Hany n)).
+    apply rbind_ext; intro stage_res. apply rbind_ext; intro srd. apply rbind_ext; intro el1.
+    destruct q as [qf|]; [|apply IH].
+    apply rbind_ext; intro votes'. apply rbind_ext; intro n'. apply IH.
   Qed.
 
   Lemma case_cond : forall el e d, agree el -> agree e -> acc_prev el = takes el KPrev ->
-    acc_seats e = takes e KSeats -> acc_prev e = takes e KPrev -> agree (Cond el e d).
+    acc_seats e = takes e KSeats -> acc_prev e = takes e KPrev -> seat_ok el VNone = true -> agree (Cond el e d).
   Proof.
-    intros el e d IHel IHe H1 H2 H3 st [s p m pl lv cl] votes Hf.
+    intros el e d IHel IHe H1 H2 H3 Hel st [s p m pl lv cl] votes Hf Hsf.
     apply fits_split in Hf. cbn [takes kw_eqb orb] in Hf. destruct Hf as [_ [_ [Hm [Hpl [Hlv Hcl]]]]].
     cbn [run_impl run_spec]. rewrite bind_style_cond, accept_cond. cbn [rbind]. kw_simpl'.
+    rewrite !sum_party_s.
     apply rbind_ext; intro sv. apply rbind_ext; intro sp.
     rewrite H1, H2, H3.
     first_part ltac:(destruct (takes el KPrev) eqn:Hp;
                      [apply agree_kw; auto; apply fits_split; kw_simpl'; repeat split; auto | apply agree_0; auto]).
     apply rbind_ext; intro ne. rewrite elim_party_map_depth. apply rbind_ext; intro restricted.
     unfold given.
+    unfold seat_fits, seat_of in Hsf; cbn [seat_ok k_seats] in Hsf.
+    change (match s with Some v => v | None => VNone end) with (odef s VNone) in Hsf.
     destruct (takes e KSeats) eqn:Hts, (takes e KPrev) eqn:Htp, (is_none (odef s VNone)) eqn:Hn;
-      cbn [andb negb]; kw_simpl';
+      cbn [andb negb] in *; kw_simpl';
       match goal with |- _ = run_spec _ _ e ?r ?sa =>
         let Hfit := fresh "Hfit" in
         assert (Hfit : fits e sa = true);
         [ apply fits_split; kw_simpl'; repeat split; auto
-        | first [ exact (IHe PosSeats sa r Hfit) | exact (IHe AllKw sa r Hfit) ] ] end.
+        | first [ exact (IHe PosSeats sa r Hfit Hsf) | exact (IHe AllKw sa r Hfit Hsf) ] ] end.
   Qed.
 
   Ltac party_loop Hip :=
     apply rbind_ext; intro ores; apply rbind_ext; intro dvs; f_equal;
     apply fold_left_ext; intros acc ps;
-    apply rbind_ext; intro results; apply rbind_ext; intro pv;
+    apply rbind_ext; intro results; rewrite party_votes_s; apply rbind_ext; intro pv;
     f_equal; f_equal; rewrite Hip;
     match goal with |- context [takes ?e KPrev] => destruct (takes e KPrev) eqn:Hp end;
     [ apply rbind_ext; intro pp; apply rbind_ext; intro pm; apply agree_npm; auto
     | apply agree_n; auto ].
 
-  Lemma case_byparty : forall ov al, agree ov -> agree al -> takes ov KSeats = true -> takes al KSeats = true ->
-    (takes al KPrev = true -> takes al KMax = true) -> acc_prev al = takes al KPrev -> agree (ByParty ov al).
+  (* the overall evaluator may be seatless: it is handed a seat count only when one is given, and then it must take one *)
+  Lemma case_byparty : forall ov al, agree ov -> agree al -> takes al KSeats = true ->
+    (takes al KPrev = true -> takes al KMax = true) -> acc_prev al = takes al KPrev ->
+    (forall v, seat_ok ov v = true) -> (forall v, seat_ok al v = true) -> agree (ByParty ov al).
   Proof.
-    intros ov al IHo IHa Hos Hs Hpm Hip st [s p m pl lv cl] votes Hf.
+    intros ov al IHo IHa Hs Hpm Hip Hanyo Hany st [s p m pl lv cl] votes Hf Hsf.
     cbn [run_impl run_spec]. rewrite bind_style_constit, accept_constit.
     destruct pl, lv, cl; try reflexivity. cbn [rbind]. kw_simpl'.
-    apply rbind_ext; intro ovotes. unfold given.
-    destruct (is_none (odef s VNone)) eqn:Hn; kw_simpl';
-      [rewrite (agree_0 ov ovotes IHo) | rewrite (agree_n ov ovotes (odef s VNone) IHo Hos)]; kw_simpl';
+    rewrite totals_s_eq. apply rbind_ext; intro ovotes. unfold given.
+    unfold seat_fits, seat_of in Hsf; cbn [seat_ok k_seats] in Hsf.
+    change (match s with Some v => v | None => VNone end) with (odef s VNone) in Hsf.
+    destruct (is_none (odef s VNone)) eqn:Hn; cbn [orb] in Hsf; kw_simpl';
+      [rewrite (agree_0 ov ovotes IHo (Hanyo VNone))
+      | rewrite (agree_n ov ovotes (odef s VNone) IHo Hsf (Hanyo _))]; kw_simpl';
       party_loop Hip.
   Qed.
 
   Lemma case_bypartys : forall ov, agree ov -> takes ov KSeats = true ->
-    (takes ov KPrev = true -> takes ov KMax = true) -> acc_prev ov = takes ov KPrev -> agree (ByPartyS ov).
+    (takes ov KPrev = true -> takes ov KMax = true) -> acc_prev ov = takes ov KPrev ->
+    (forall v, seat_ok ov v = true) -> agree (ByPartyS ov).
   Proof.
-    intros ov IHo Hs Hpm Hip st [s p m pl lv cl] votes Hf.
+    intros ov IHo Hs Hpm Hip Hany st [s p m pl lv cl] votes Hf _.
     cbn [run_impl run_spec]. rewrite bind_style_constit, accept_constit.
     destruct pl, lv, cl; try reflexivity. cbn [rbind]. kw_simpl'.
-    apply rbind_ext; intro ovotes. unfold given.
+    rewrite totals_s_eq. apply rbind_ext; intro ovotes. unfold given.
     destruct (is_none (odef s VNone)) eqn:Hn; kw_simpl';
-      [rewrite (agree_0 ov ovotes IHo) | rewrite (agree_n ov ovotes (odef s VNone) IHo Hs)]; kw_simpl';
+      [rewrite (agree_0 ov ovotes IHo (Hany VNone)) | rewrite (agree_n ov ovotes (odef s VNone) IHo Hs (Hany _))]; kw_simpl';
       party_loop Hip.
   Qed.
 
   Lemma plist_party_call : forall p, agree p -> takes p KSeats = true ->
     forall n pg m l lv cl votes,
-    fits (PListC p) (KW (Some n) pg m (Some l) lv cl) = true ->
+    fits (PListC p) (KW (Some n) pg m (Some l) lv cl) = true -> seat_ok p n = true ->
     RI p votes (PA [n] (KW None pg m None None cl)) = RS p votes (KW (Some n) pg m None None cl).
   Proof.
-    intros p IH Hs n pg m l lv cl votes Hf.
+    intros p IH Hs n pg m l lv cl votes Hf Hn.
     apply fits_split in Hf. cbn [takes kw_eqb orb] in Hf. destruct Hf as [_ [Hp [Hm [_ [_ Hcl]]]]].
-    apply (IH PosSeats (KW (Some n) pg m None None cl) votes).
+    apply (IH PosSeats (KW (Some n) pg m None None cl) votes); [|exact Hn].
     apply fits_split. repeat split; auto.
   Qed.
 
   Lemma case_plistc : forall p, agree p -> takes p KSeats = true -> agree (PListC p).
   Proof.
-    intros p IH Hs st [s pg m pl lv cl] votes Hf.
+    intros p IH Hs st [s pg m pl lv cl] votes Hf Hsf.
     cbn [run_impl run_spec]. rewrite bind_style_plist, accept_plist.
     destruct s as [n|], pl as [l|]; try reflexivity. cbn [rbind]. kw_simpl'.
-    rewrite (plist_party_call p IH Hs n pg m l lv cl votes Hf). reflexivity.
+    rewrite (plist_party_call p IH Hs n pg m l lv cl votes Hf Hsf). reflexivity.
   Qed.
 
   Lemma case_plisto : forall p l c, agree p -> takes p KSeats = true -> agree (PListO p (Leaf l LOpen) c).
   Proof.
-    intros p lf c IH Hs st [s pg m pl lv cl] votes Hf.
+    intros p lf c IH Hs st [s pg m pl lv cl] votes Hf Hsf.
     cbn [run_impl run_spec]. rewrite bind_style_plist, accept_plist.
     destruct s as [n|], pl as [l|]; try reflexivity. cbn [rbind]. kw_simpl'.
-    rewrite (plist_party_call p IH Hs n pg m l lv cl votes Hf). reflexivity.
+    rewrite (plist_party_call p IH Hs n pg m l lv cl votes Hf Hsf). reflexivity.
+  Qed.
+
+  (* AdjustedSeatCount: the evaluator is run with the seat count the calculator adds, the gains and caps unchanged *)
+  Lemma case_adjleaf : forall c e, agree e -> takes_spm e = true -> (forall v, seat_ok e v = true) -> agree (AdjLeaf c e).
+  Proof.
+    intros c e IH Hspm Hany st [s p m pl lv cl] votes Hf _.
+    unfold takes_spm in Hspm. rewrite !andb_true_iff in Hspm. destruct Hspm as [[Hs Hp] Hm].
+    cbn [run_impl run_spec]. rewrite bind_style_adj, accept_adj.
+    destruct s as [n|], p as [g|], pl, lv, cl; try reflexivity. cbn [rbind]. kw_simpl'.
+    apply rbind_ext; intro adj. apply rbind_ext; intro n'. apply agree_npm; auto.
+  Qed.
+
+  Lemma calc_call : forall pe votes n mx, agree pe -> takes pe KSeats = true -> takes pe KMax = true ->
+    (forall v, seat_ok pe v = true) ->
+    RI pe votes (PA [n] (only KMax mx)) = RS pe votes (KW (Some n) None (Some mx) None None None).
+  Proof.
+    intros pe votes n mx IH Hs Hm Hany.
+    apply (IH PosSeats (KW (Some n) None (Some mx) None None None) votes); [|apply Hany].
+    apply fits_split. repeat split; auto.
+  Qed.
+
+  Lemma case_adjallow : forall pe e, agree pe -> agree e -> takes pe KSeats = true -> takes pe KMax = true ->
+    (forall v, seat_ok pe v = true) -> takes_spm e = true -> (forall v, seat_ok e v = true) -> agree (AdjAllow pe e).
+  Proof.
+    intros pe e IHp IH Hps Hpm Hanyp Hspm Hany st [s p m pl lv cl] votes Hf _.
+    unfold takes_spm in Hspm. rewrite !andb_true_iff in Hspm. destruct Hspm as [[Hs Hp] Hm].
+    cbn [run_impl run_spec]. rewrite bind_style_adj, accept_adj.
+    destruct s as [n|], p as [g|], pl, lv, cl; try reflexivity. cbn [rbind]. kw_simpl'.
+    rewrite (calc_allow_ext _ (fun n0 mx => RS pe votes (KW (Some n0) None (Some mx) None None None)))
+      by (intros a b; apply calc_call; auto).
+    apply rbind_ext; intro adj. apply rbind_ext; intro n'. apply agree_npm; auto.
+  Qed.
+
+  Lemma case_adjlevel : forall pe e f, agree pe -> agree e -> takes pe KSeats = true -> takes pe KMax = true ->
+    (forall v, seat_ok pe v = true) -> takes_spm e = true -> (forall v, seat_ok e v = true) -> agree (AdjLevel pe e f).
+  Proof.
+    intros pe e f IHp IH Hps Hpm Hanyp Hspm Hany st [s p m pl lv cl] votes Hf _.
+    unfold takes_spm in Hspm. rewrite !andb_true_iff in Hspm. destruct Hspm as [[Hs Hp] Hm].
+    cbn [run_impl run_spec]. rewrite bind_style_adj, accept_adj.
+    destruct s as [n|], p as [g|], pl, lv, cl; try reflexivity. cbn [rbind]. kw_simpl'.
+    rewrite (calc_level_ext f _ (fun n0 mx => RS pe votes (KW (Some n0) None (Some mx) None None None)))
+      by (intros a b; apply calc_call; auto).
+    apply rbind_ext; intro adj. apply rbind_ext; intro n'. apply agree_npm; auto.
+  Qed.
+
+  Lemma case_adjlevelc : forall ce oe e f, agree ce -> agree oe -> agree e ->
+    takes ce KSeats = true -> takes ce KMax = true -> (forall v, seat_ok ce v = true) ->
+    takes oe KSeats = true -> takes oe KMax = true -> (forall v, seat_ok oe v = true) ->
+    takes_spm e = true -> (forall v, seat_ok e v = true) -> agree (AdjLevelC ce oe e f).
+  Proof.
+    intros ce oe e f IHc IHo IH Hcs Hcm Hanyc Hos Hom Hanyo Hspm Hany st [s p m pl lv cl] votes Hf _.
+    unfold takes_spm in Hspm. rewrite !andb_true_iff in Hspm. destruct Hspm as [[Hs Hp] Hm].
+    cbn [run_impl run_spec]. rewrite bind_style_adj, accept_adj.
+    destruct s as [n|], p as [g|], pl, lv, cl; try reflexivity. cbn [rbind]. kw_simpl'.
+    rewrite (calc_level_byc_ext f _ (fun n0 mx => RS ce votes (KW (Some n0) None (Some mx) None None None))
+               _ (totals_s votes) _ (fun pv h mx => RS oe pv (KW (Some h) None (Some mx) None None None)));
+      [|intros a b; apply calc_call; auto|symmetry; apply totals_s_eq|intros pv a b; apply calc_call; auto].
+    apply rbind_ext; intro adj. apply rbind_ext; intro n'. apply agree_npm; auto.
+  Qed.
+
+  Lemma case_adjlevelc0 : forall ce e f, agree ce -> agree e ->
+    takes ce KSeats = true -> takes ce KMax = true -> (forall v, seat_ok ce v = true) ->
+    takes_spm e = true -> (forall v, seat_ok e v = true) -> agree (AdjLevelC0 ce e f).
+  Proof.
+    intros ce e f IHc IH Hcs Hcm Hanyc Hspm Hany st [s p m pl lv cl] votes Hf _.
+    unfold takes_spm in Hspm. rewrite !andb_true_iff in Hspm. destruct Hspm as [[Hs Hp] Hm].
+    cbn [run_impl run_spec]. rewrite bind_style_adj, accept_adj.
+    destruct s as [n|], p as [g|], pl, lv, cl; try reflexivity. cbn [rbind]. kw_simpl'.
+    rewrite (calc_level_byc_ext f _ (fun n0 mx => RS ce votes (KW (Some n0) None (Some mx) None None None))
+               _ (Ok votes) _ (fun pv h mx => RS ce pv (KW (Some h) None (Some mx) None None None) >>= merged_distr));
+      [|intros a b; apply calc_call; auto|reflexivity|intros pv a b; cbv beta; apply (f_equal (fun r => r >>= merged_distr)); apply calc_call; auto].
+    apply rbind_ext; intro adj. apply rbind_ext; intro n'. apply agree_npm; auto.
   Qed.
 
   (* C14_compose: for every well-typed, faithful tree of ANY depth, every call style, every
@@ -421,26 +676,50 @@ Section Compose.
     - apply case_leaf.
     - apply case_pre; auto.
     - apply case_post; auto.
-    - destruct Hw. apply case_fixed; auto.
-    - destruct Hw as [? ?]. destruct Hfa as [[[[Q1 Q2] Q3] ?] ?].
+    - destruct Hw as [[? ?] ?]. apply case_fixed; auto.
+    - destruct Hw as [[? ?] ?]. destruct Hfa as [[[[Q1 Q2] Q3] ?] ?].
       apply eqb_prop in Q1, Q2, Q3. apply case_cond; auto.
-    - destruct Hw as [[? Hpm] ?]. destruct Hfa as [Q1 ?]. apply eqb_prop in Q1.
-      apply case_bycons; auto. intro Hp. rewrite Hp in Hpm. exact Hpm.
-    - destruct Hw as [[[[? Hpm] ?] ?] ?]. destruct Hfa as [[Q1 ?] ?]. apply eqb_prop in Q1.
-      apply case_byconsd; auto. intro Hp. rewrite Hp in Hpm. exact Hpm.
-    - destruct Hw. apply case_preapp; auto.
-    - destruct Hw as [[[? ?] ?] ?]. destruct Hfa. apply case_preappd; auto.
-    - destruct Hw. apply case_remapp; auto.
-    - destruct Hw as [[[[? ?] ?] Hpm] ?]. destruct Hfa as [[Q1 ?] ?]. apply eqb_prop in Q1.
-      apply case_byparty; auto. intro Hp. rewrite Hp in Hpm. exact Hpm.
-    - destruct Hw as [[? ?] Hpm]. destruct Hfa as [Q1 ?]. apply eqb_prop in Q1.
-      apply case_bypartys; auto. intro Hp. rewrite Hp in Hpm. exact Hpm.
+    - destruct Hw as [[[? Hpm] Ha] ?]. destruct Hfa as [Q1 ?]. apply eqb_prop in Q1.
+      apply case_bycons; auto; [intro Hp; rewrite Hp in Hpm; exact Hpm|apply seat_any_ok; exact Ha].
+    - destruct Hw as [[[[[? Hpm] Ha] ?] Hb] ?]. destruct Hfa as [[Q1 ?] ?]. apply eqb_prop in Q1.
+      apply case_byconsd; auto; [intro Hp; rewrite Hp in Hpm; exact Hpm|apply seat_any_ok; exact Ha|apply seat_any_ok; exact Hb].
+    - destruct Hw as [[? Ha] ?]. apply case_preapp; auto. apply seat_any_ok; exact Ha.
+    - destruct Hw as [[[[? Ha] ?] Hb] ?]. destruct Hfa. apply case_preappd; auto; apply seat_any_ok; assumption.
+    - destruct Hw as [[? Ha] ?]. apply case_remapp; auto. apply seat_any_ok; exact Ha.
+    - destruct Hw as [[[[[Ha ?] ?] Hpm] Hb] ?]. destruct Hfa as [[Q1 ?] ?]. apply eqb_prop in Q1.
+      apply case_byparty; auto; [intro Hp; rewrite Hp in Hpm; exact Hpm|apply seat_any_ok; exact Ha|apply seat_any_ok; exact Hb].
+    - destruct Hw as [[[? ?] Hpm] Ha]. destruct Hfa as [Q1 ?]. apply eqb_prop in Q1.
+      apply case_bypartys; auto; [intro Hp; rewrite Hp in Hpm; exact Hpm|apply seat_any_ok; exact Ha].
     - apply case_multi. rewrite forallb_forall in Hw, Hfa. rewrite Forall_forall in *.
       intros x Hx. specialize (Hw x Hx). apply andb_true_iff in Hw. destruct Hw as [? ?].
       split; auto.
-    - destruct Hw as [[? ?] ?]. destruct Hfa. apply case_tiebr; auto.
+    - destruct Hw as [[[? ?] Ha] ?]. destruct Hfa. apply case_tiebr; auto. apply seat_any_ok; exact Ha.
     - destruct Hw. apply case_plistc; auto.
-    - destruct Hw as [[? ?] Hle]. destruct Hfa. destruct t2 as [l k| | | | | | | | | | | | | | |]; try discriminate Hle.
+    - destruct Hw as [[? ?] Hle]. destruct Hfa.
+      destruct t2 as [l k| | | | | | | | | | | | | | | | | | | | | | |]; try discriminate Hle.
       destruct k; try discriminate Hle. apply case_plisto; auto.
+    - apply case_vsys; auto.
+    - apply case_unused. rewrite forallb_forall in Hw, Hfa. rewrite Forall_forall in *.
+      intros x Hx. specialize (Hw x Hx). rewrite !andb_true_iff in Hw. destruct Hw as [[? Ha] ?].
+      split; [auto|]. split; [assumption|]. apply seat_any_ok; exact Ha.
+    - destruct Hw as [[? Ha] ?]. apply case_adjleaf; auto. apply seat_any_ok; exact Ha.
+    - destruct Hw as [[[[[[? ?] Ha] ?] ?] Hb] ?]. destruct Hfa.
+      apply case_adjallow; auto; apply seat_any_ok; assumption.
+    - destruct Hw as [[[[[[? ?] Ha] ?] ?] Hb] ?]. destruct Hfa.
+      apply case_adjlevel; auto; apply seat_any_ok; assumption.
+    - destruct Hw as [[[[? Hpm] Ha] ?] ?]. destruct Hfa as [[[Q1 Q2] ?] ?]. apply eqb_prop in Q1, Q2.
+      apply case_byconsp; auto; [intro Hp; rewrite Hp in Hpm; exact Hpm|apply seat_any_ok; exact Ha].
+    - destruct Hw as [[[[[[[[[[? ?] Ha] ?] ?] ?] Hb] ?] ?] Hc] ?]. destruct Hfa as [[? ?] ?].
+      apply case_adjlevelc; auto; apply seat_any_ok; assumption.
+    - destruct Hw as [[[[[[? ?] Ha] ?] ?] Hb] ?]. destruct Hfa.
+      apply case_adjlevelc0; auto; apply seat_any_ok; assumption.
+  Qed.
+
+  (* trees in which every apportioner and overall evaluator takes a seat count need no condition on the seat argument *)
+  Corollary compose_seated : forall t, wt t = true -> seated t = true -> faithful t = true ->
+    forall st sa votes, fits t sa = true -> RI t votes (mk_call st sa) = RS t votes sa.
+  Proof.
+    intros t Hw Hs Hf st sa votes Hfit. apply compose; auto.
+    unfold seat_fits. apply seat_any_ok. apply seated_seat_any. exact Hs.
   Qed.
 End Compose.
